@@ -2,6 +2,7 @@ import Mastverif.Model.Ptr
 import Mastverif.Model.PtrIter
 import Mastverif.Model.PtrCursor
 import Mastverif.Model.PtrSeek
+import Mastverif.Model.PtrDiff
 import Mastverif.Model.Store
 import Std.Data.HashMap
 /-!
@@ -219,6 +220,32 @@ def pmirror (e : Enc) (layer : Nat → Nat) (bf : Nat) (p : PSt) (toks : List St
       | .err ps' => fin { p with ps := ps', last := "err" }
       | r => fin { p with last := outcomeStr (resOutcome r) }
     | none => p
+  | ["diff", o, n] =>
+    -- DiffIter of tree n against tree o ("-" = no old tree): the entry events
+    match nat n >>= (p.trees[·]?) with
+    | some tn =>
+      let oldRoot : Option (Option HLink) :=
+        if o == "-" then some none
+        else match nat o >>= (p.trees[·]?) with
+          | some to => some (some to.root)
+          | none => none
+      match oldRoot with
+      | none => p
+      | some oldRoot =>
+        let prog : M (List OEv) := do
+          let st ← oDiffInit oldRoot tn.root
+          oRun E pfuel 1000000 st
+        match prog p.ps with
+        | .ok evs ps' =>
+          let showEv : OEv → Option String
+            | .add k v => some s!"+{k}={v}"
+            | .rem k v => some s!"-{k}={v}"
+            | .chg k a b => some s!"~{k}={a}>{b}"
+            | _ => none
+          fin { p with ps := ps', last := "ok", lastVal := " ".intercalate (evs.filterMap showEv) }
+        | .err ps' => fin { p with ps := ps', last := "err" }
+        | r => fin { p with last := outcomeStr (resOutcome r) }
+    | none => p
   | ["seek", slot, k] =>
     match nat slot >>= (p.trees[·]?), nat k with
     | some t, some k =>
@@ -291,7 +318,9 @@ def pcheckVal (p : PSt) (toks : List String) (resp : String) : PSt :=
   if !p.on || p.faulted then p else
   match toks with
   | [cmd, slot] | [cmd, slot, _] =>
-    if (cmd == "get" || cmd == "iter" || cmd == "seek") && p.last == "ok" && (slot.toNat?.bind (p.trees[·]?)).isSome && p.lastVal != resp then
+    if cmd == "diff" && p.last == "ok" && p.lastVal != resp then
+      { p with valBad := p.valBad ++ [s!"diff:{p.lastVal}"] }
+    else if (cmd == "get" || cmd == "iter" || cmd == "seek") && p.last == "ok" && (slot.toNat?.bind (p.trees[·]?)).isSome && p.lastVal != resp then
       { p with valBad := p.valBad ++ [s!"{cmd}{slot}:{p.lastVal}"] }
     else if (cmd == "cmin" || cmd == "cmax" || cmd == "cfwd" || cmd == "cbwd" || cmd == "cceil") && p.last == "ok" &&
         (slot.toNat?.bind (p.curs[·]?)).isSome && p.lastVal != resp then
